@@ -111,7 +111,23 @@ def gen_pairs(ctx, n):
     out = []
     for i in range(n):
         r = rng.random()
-        if r < 0.6:
+        if r < 0.04:
+            # one list object at two places of t1, edited differently at the same index in t2
+            n = rng.randint(3, 6)
+            shared = [rng.randint(0, 9) for _ in range(n)]
+            k = rng.randrange(n)
+            x = list(shared); del x[k]
+            y = list(shared); y.insert(k, rng.randint(10, 19))
+            if rng.random() < 0.5:
+                t1, t2 = {"a": shared, "b": shared}, {"a": x, "b": y}
+            else:
+                t1, t2 = [shared, 0, shared], [y, 0, x]
+            ctx.count("gen:shared_list_same_index_edit")
+        elif r < 0.08:
+            a, b = V.gen_row_list_pair(rng)
+            t1, t2 = V.plant(rng, rng.choice([0, 0, 1]), (a, b))
+            ctx.count("gen:tuple_rows")
+        elif r < 0.6:
             a, b, kinds = V.gen_atom_list_pair(rng)
             t1, t2 = V.plant(rng, rng.choice([0, 0, 1, 2]), (a, b))
             ctx.count("gen:atom_list_edit")
@@ -127,6 +143,12 @@ def gen_pairs(ctx, n):
         else:
             t1, t2 = V.gen_value(rng, 3, 4), V.gen_value(rng, 3, 4)
             ctx.count("gen:independent")
+        if rng.random() < 0.15:
+            # the quantifier allows an object to occur at two positions of t1: the model sees the unfolded tree
+            t1s, ok = V.share(rng, t1)
+            if ok:
+                t1 = t1s
+                ctx.count("gen:shared_subobject_in_t1")
         out.append((t1, t2))
     return out
 
